@@ -298,6 +298,10 @@ impl Prop for C09 {
             let tgt = "Tgt ::= INTEGER (0..7)".to_string();
             push("selection", format!("selection|names={pool}|alt-type=reference"), vec![tgt.clone(), ch.clone(), format!("Mid ::= a < {pool}")], vec![tgt.clone(), ch.clone(), "Mid ::= Tgt".into()], vec!["Mid"]);
             push("selection", format!("selection|names={pool}|alt-type=tagged"), vec![tgt.clone(), ch.clone(), format!("Mid ::= b < {pool}")], vec![tgt.clone(), ch.clone(), "Mid ::= [3] BOOLEAN".into()], vec!["Mid"]);
+            // the tagged alternative selected inside a component / an alternative (the tag travels with the type)
+            push("selection", format!("selection|names={pool}|alt-type=tagged|component"), vec![tgt.clone(), ch.clone(), format!("Mid ::= SEQUENCE {{ own [7] NULL, s b < {pool} }}")], vec![tgt.clone(), ch.clone(), "Mid ::= SEQUENCE { own [7] NULL, s [3] BOOLEAN }".into()], vec!["Mid"]);
+            push("selection", format!("selection|names={pool}|alt-type=tagged|set-component"), vec![tgt.clone(), ch.clone(), format!("Mid ::= SET {{ own [7] NULL, s b < {pool} OPTIONAL }}")], vec![tgt.clone(), ch.clone(), "Mid ::= SET { own [7] NULL, s [3] BOOLEAN OPTIONAL }".into()], vec!["Mid"]);
+            push("selection", format!("selection|names={pool}|alt-type=tagged|alternative"), vec![tgt.clone(), ch.clone(), format!("Mid ::= CHOICE {{ own [7] NULL, s b < {pool} }}")], vec![tgt.clone(), ch.clone(), "Mid ::= CHOICE { own [7] NULL, s [3] BOOLEAN }".into()], vec!["Mid"]);
             push("selection", format!("selection|names={pool}|alt-type=of-reference"), vec![tgt.clone(), ch.clone(), format!("Mid ::= c < {pool}")], vec![tgt.clone(), ch.clone(), "Mid ::= SEQUENCE OF Tgt".into()], vec!["Mid"]);
         }
         // ---- combinations: an expansion step copies a constraint that itself needs a value reference / named number resolved
